@@ -1,14 +1,24 @@
 #!/usr/bin/env python3
 """prints the markdown table of seeded changes and which checks catch them (from /verif/seeded/*/meta.json)"""
 import json,glob,os
+blind={}
+p='/verif/seeded/blind_baseline_r3.jsonl'
+if os.path.exists(p):
+    for l in open(p):
+        r=json.loads(l); blind[r['seed']]=r['verdict']
 rows=[]
 for d in sorted(glob.glob('/verif/seeded/*/')):
     m=json.load(open(d+'meta.json'))
+    name=os.path.basename(d[:-1])
     det=[]
     for c,v in m.get('detection',{}).items():
-        det.append(f"{c}: {'**caught**' if v['exit']==1 else 'missed'} ({', '.join('`'+s+'`' for s in v['signatures'][:2])})" if v['exit']==1 else f"{c}: missed (exit {v['exit']})")
+        det.append(f"{c}: {'**caught**' if v['exit']==1 else 'missed'} ({', '.join('`'+s+'`' for s in v['signatures'][:2])}{', '+v['tier']+' tier' if v.get('tier','quick')!='quick' else ''})" if v['exit']==1 else f"{c}: missed (exit {v['exit']})")
     summ=(m.get('summary') or '').replace('|','/').replace('\n',' ')
     needs=(m.get('needs') or '').replace('|','/').replace('\n',' ')
-    rows.append(f"| {os.path.basename(d[:-1])} | {m.get('site','')} — {summ[:230]} | {needs[:200]} | {'; '.join(det)} |")
-print("| seed | change | needs | result of the quick check(s) |\n|---|---|---|---|")
+    first='missed' if m.get('history') else 'caught'
+    if name.endswith('-r3'):
+        b=blind.get(name[:-3],'?')
+        first=f"blind: {'caught' if b=='caught' else 'missed'}; official: {first}"
+    rows.append(f"| {name} | {m.get('site','')} — {summ[:230]} | {needs[:200]} | {first} | {'; '.join(det)} |")
+print("| seed | change | needs | first evaluation | final result of the check(s) |\n|---|---|---|---|---|")
 print("\n".join(rows))
